@@ -92,4 +92,5 @@ def obligations(tier, seed):
                 obs.append(Ob(f"C05/update{list(sub)}{'+args' if chg else ''}/{nm}", f, (gfi.KEY, P.args, ex, ex2, args2),
                               assume=lambda k, a, v, v2, a2, A=A: A(a, v) + A(a2, v2),
                               note="importance(full vals); Update(chm(vals2 on S), args changed?) -> new args, choices, weight=newscore-oldscore (reference), backward constraint"))
+        obs += gfi.update_at_index_obs("C05", nm, P)
     return obs
